@@ -141,7 +141,7 @@ theorem stepNested_ginv (st : State) (h : GInv st) (op : Op) : GInv (stepNested 
               · simp only [Option.some.injEq] at hl
                 subst hl
                 obtain ⟨ho, _⟩ := findRow_some hf
-                have hinv := writeUpdate_inv (g1 s hsm) old { old with ver := st.tick } ho rfl rfl
+                have hinv := writeUpdate_inv (g1 s hsm) st.d.deleteUnguarded old { old with ver := st.tick } ho rfl rfl
                   (if old.text.isEmpty then none else some old.text) (by
                     by_cases hem : old.text.isEmpty = true
                     · right; simp only [hem, ↓reduceIte, true_and]; exact List.isEmpty_iff.mp hem
@@ -319,7 +319,7 @@ theorem step_ginv (st : State) (h : GInv st) (hn : st.d.deleteLeavesIndex = true
           simp only [Option.some.injEq] at hl
           subst hl
           obtain ⟨ho, _⟩ := findRow_some hf
-          have hinv := writeUpdate_inv (g1 s hsm) old { old with text := text, ver := st.tick } ho rfl rfl
+          have hinv := writeUpdate_inv (g1 s hsm) st.d.deleteUnguarded old { old with text := text, ver := st.tick } ho rfl rfl
             (if old.text.isEmpty then none else some old.text) (by
               by_cases hem : old.text.isEmpty = true
               · right; simp only [hem, ↓reduceIte, true_and]; exact List.isEmpty_iff.mp hem
@@ -352,7 +352,7 @@ theorem step_ginv (st : State) (h : GInv st) (hn : st.d.deleteLeavesIndex = true
           simp only [Option.some.injEq] at hl
           subst hl
           obtain ⟨ho, _⟩ := findRow_some hf
-          have hinv := writeUpdate_inv (g1 s hsm) old { old with text := [], ver := st.tick } ho rfl rfl
+          have hinv := writeUpdate_inv (g1 s hsm) st.d.deleteUnguarded old { old with text := [], ver := st.tick } ho rfl rfl
             (if old.text.isEmpty then none else some old.text) (by
               by_cases hem : old.text.isEmpty = true
               · right; simp only [hem, ↓reduceIte, true_and]; exact List.isEmpty_iff.mp hem
@@ -399,8 +399,8 @@ theorem step_ginv (st : State) (h : GInv st) (hn : st.d.deleteLeavesIndex = true
 
 /-! #### while deletions are not handled (and therefore not admissible) no deletion record appears -/
 
-theorem writeUpdate_tombs (i : Bool) (o nw : Row) (p : Option (List Word)) (s : Site) :
-    (writeUpdate i o nw p s).tombs = s.tombs := rfl
+theorem writeUpdate_tombs (u i : Bool) (o nw : Row) (p : Option (List Word)) (s : Site) :
+    (writeUpdate u i o nw p s).tombs = s.tombs := rfl
 
 theorem writeInsert_tombs (i : Bool) (nw : Row) (s : Site) : (writeInsert i nw s).tombs = s.tombs := rfl
 
@@ -414,7 +414,7 @@ theorem foldl_ingest_tombs (d : Defects) (l : List Row) : ∀ (s : Site), (l.fol
     unfold ingestRow
     dsimp only
     split
-    · exact writeUpdate_tombs _ _ _ _ _
+    · exact writeUpdate_tombs _ _ _ _ _ _
     · exact writeInsert_tombs _ _ _
 
 theorem pullOp_tombs (d : Defects) (src dst : Site) (hn : src.tombs = []) : (pullOp d src dst).tombs = dst.tombs := by
@@ -614,8 +614,8 @@ theorem admissibleRun_of_localOnly (ops : List Op) : ∀ (st : State), st.d.togg
 
 /-! with `Defects.none` the flag the engine uses is the one the model version in force declares -/
 
-theorem writeUpdate_flags (i : Bool) (o nw : Row) (p : Option (List Word)) (s : Site) :
-    (writeUpdate i o nw p s).indexOn = s.indexOn ∧ (writeUpdate i o nw p s).declared = s.declared := ⟨rfl, rfl⟩
+theorem writeUpdate_flags (u i : Bool) (o nw : Row) (p : Option (List Word)) (s : Site) :
+    (writeUpdate u i o nw p s).indexOn = s.indexOn ∧ (writeUpdate u i o nw p s).declared = s.declared := ⟨rfl, rfl⟩
 
 theorem writeInsert_flags (i : Bool) (nw : Row) (s : Site) :
     (writeInsert i nw s).indexOn = s.indexOn ∧ (writeInsert i nw s).declared = s.declared := ⟨rfl, rfl⟩
@@ -625,7 +625,7 @@ theorem ingestRow_flags (d : Defects) (s : Site) (r : Row) :
   unfold ingestRow
   dsimp only
   split
-  · exact writeUpdate_flags _ _ _ _ _
+  · exact writeUpdate_flags _ _ _ _ _ _
   · exact writeInsert_flags _ _ _
 
 theorem foldl_ingest_flags (d : Defects) (l : List Row) : ∀ (s : Site),
